@@ -312,6 +312,15 @@ def decodeTime (n : Norm) (rs : List DRow) : Option (List (Rat × Rat)) :=
     | none => none
   | _, _ => none
 
+/-- the decoder's input for one note: the score side of the matched note and its encoded parameters -/
+def toDRow (x : MNote) (p : TParam) : DRow := ⟨x.so, x.sd, p.timing, p.ratio, p.cols⟩
+
+/-- earliest performed onset -/
+def minPo (ns : List MNote) : Rat :=
+  match ns with
+  | [] => 0
+  | x :: rest => minL x.po (rest.map (·.po))
+
 -- ------------------------------------------------------------------ velocity
 
 def encodeVel (v : Int) : Rat := (v : Rat) / 127
